@@ -21,7 +21,8 @@ def parseEv (j : Json) : Except String Ev := do
 
 def handle : Handler := fun j a => do
   let cj ← j.getObjVal? "cfg"
-  let cfg : Cfg := { lowMark := ← jInt cj "low", highMark := ← jInt cj "high" }
+  -- lags arrive in milliseconds (floats of seconds in the code), the marks in seconds
+  let cfg : Cfg := { lowMark := (← jInt cj "low") * lagScale, highMark := (← jInt cj "high") * lagScale }
   let masterRs := parseRS (← j.getObjVal? "master_rs")
   let regA ← jArr j "registry"
   let hosts : List RegHost := regA.toList.map fun r =>
